@@ -55,7 +55,7 @@ def methodAppend (pol : Val → Option Nat) (s : Stk) : List Val → Stk
 /-- `stack.push`. `interp` gives the meaning of an installed push-policy id. -/
 def push (interp : Nat → Val → Option Nat) (s : Stk) (vs : List Val) : Stk :=
   match s.cfg.ppf with
-  | some p => methodAppend (interp p) s vs
+  | some p => methodAppend (interp p) s (vs.filter s.canPushNester)   -- no-nesting applies whatever the policy says (repair F36)
   | none => genericAppend s vs
 
 /-- `stack.insert` -/
